@@ -37,8 +37,12 @@ demo_tests=$(git diff --name-only; git ls-files --others --exclude-standard | gr
 run_demo() { cargo test -p "$crate" --offline -j 10 --no-fail-fast $extra --features "${DEMO_FEATURES:-}" "${DEMO_FILTER:-demo}" 2>&1; }
 # the demo tests are identified by the word 'demo' or 'seeded' in their module/file names
 filter=$(grep -ho 'mod [a-z0-9_]*\(demo\|seeded\)[a-z0-9_]*' "$src/demo.diff" | head -1 | awk '{print $2}')
-if [ -z "$filter" ]; then filter=$(grep -o 'tests/[a-z0-9_]*\.rs' "$src/demo.diff" | head -1 | sed 's#tests/##;s#\.rs##'); fi
-if grep -q 'tests/[a-z0-9_]*\.rs' "$src/demo.diff" && [ "$crate" = "ic-btc-canister" ]; then extra2="--test $filter"; f2=""; else extra2="$extra"; f2="$filter"; fi
+itest=$(grep -o '^+++ b/[a-z-]*/tests/[a-z0-9_]*\.rs' "$src/demo.diff" | head -1 | sed 's#.*/tests/##;s#\.rs##')
+if [ -n "$itest" ]; then extra2="--test $itest"; f2=""; filter="$itest";
+else
+  if [ -z "$filter" ]; then filter=$(grep -o '^+++ b/.*/src/.*/[a-z0-9_]*\.rs' "$src/demo.diff" | head -1 | sed 's#.*/##;s#\.rs##'); fi
+  extra2="$extra"; f2="$filter"
+fi
 cargo test -p "$crate" --offline -j 10 --no-fail-fast $extra2 $f2 > /tmp/confirm-demo-with.log 2>&1
 with=$(grep -c '^test .* FAILED' /tmp/confirm-demo-with.log)
 withok=$(grep -c '^test .* ok' /tmp/confirm-demo-with.log)
